@@ -77,13 +77,14 @@ func init() {
 		})
 
 	register("C20",
-		"Decides the structural clauses of C20: in the dispatcher every built-in per-type builder is reached only on the not-found edge of registry[typ] (pointer kinds first recurse on the element type; union/null schemas resolve structurally and build their branches through the dispatcher again), the registered builder is called with the dispatcher's own arguments (BT-REG); every sub-codec in every builder is built through the dispatcher (who-may-call); schema generation returns the registered schema before its kind switch and recurses only through schemaForType (SG-REG); Register/RegisterSchema unconditionally overwrite (REG-OVERWRITE); each of the library's six registrations pairs a builder with a schema whose branch type the builder accepts (REG-PAIR), returns codecs for exactly the registered type (PC-REG) and every codec's New matches its Read so registered types work as map values and pointer targets (PC-NEW); the registered null.* codecs omit exactly the invalid wrappers (OM-VALID) and, like every codec, hand out no view of the block buffer (AL-BUF). "+
+		"Decides the structural clauses of C20: in the dispatcher every built-in per-type builder is reached only on the not-found edge of registry[typ] (pointer kinds first recurse on the element type; union/null schemas resolve structurally and build their branches through the dispatcher again), the registered builder is called with the dispatcher's own arguments (BT-REG); every sub-codec in every builder is built through the dispatcher (who-may-call); schema generation returns the registered schema before its kind switch and recurses only through schemaForType, and looks up a record field's type whatever its kind, tag and whether it is embedded (SG-REG); a record field's codec is built for the struct field's own type, an embedded struct being the field named after its type (BT-REC); Register/RegisterSchema unconditionally overwrite (REG-OVERWRITE); each of the library's six registrations pairs a builder with a schema whose branch type the builder accepts (REG-PAIR), returns codecs for exactly the registered type (PC-REG) and every codec's New matches its Read so registered types work as map values and pointer targets (PC-NEW); the registered null.* codecs omit exactly the invalid wrappers (OM-VALID) and, like every codec, hand out no view of the block buffer (AL-BUF). "+
 			"Not decided: round trip of values through a custom codec.",
 		func(c *Ctx) {
 			ruleBTReg(c)
 			ruleBTPure(c)
 			ruleWASel(c)
 			ruleSGReg(c)
+			ruleBTRec(c)
 			ruleRegOverwrite(c)
 			ruleRegArg(c)
 			ruleRegEntry(c)
